@@ -7,6 +7,12 @@ ROOT = os.path.dirname(os.path.dirname(os.path.abspath(__file__)))
 ALL = ["C%02d" % i for i in range(1, 21)]
 
 CHECKS = {
+    "C09": dict(
+        technique="Lean 4 refinement proof of a sorted byte-string-map model of the LevelDB store to an abstract (index -> entry, key -> value) spec; differential runs of the real LevelDBStore (incl. close/reopen, JSON->protobuf conversion and SIGKILL/reopen) against the model and a plain map oracle",
+        text="Machine-checked proof that big-endian index keys order numerically and never collide with stablestore- keys, that the representation invariant is preserved by every operation, and that GetLog/FirstIndex/LastIndex/StoreLogs/DeleteRange/Set/Get/SetUint64/GetUint64/ConvertToProto/reopen refine the abstract log and stable maps (DeleteRange removes exactly [min,max] incl. 2^64-1 and never touches the stable store; conversion keeps every entry's decoded message). The hand-written model is tied to the code by a differential run on every check.",
+        design_ref="DESIGN.md §4 C09",
+        note="Trusts: Lean kernel; goleveldb (sorted map, atomic batches, durability across close and process kill); protobuf/JSON value codecs (assumed round-trip, exercised by the run); the model's faithfulness to the extent the differential run exercises it.",
+    ),
     "C18": dict(
         technique="Lean 4 round-trip theorem for the byte-exact output-batch codec; theorems over field-copy tables regenerated from the Go AST (every encoder/decoder of robust.Message and raft.Log found in the repo); cross-decoding differential run Go<->Lean and real protobuf/JSON round trips",
         text="Proof that unmarshal(marshal b) = b for every output batch (any sizes, any bytes, recipients up to 2^64-1), and that the regenerated field-copy tables of ProtoMessage/CopyToProtoMessage/NewMessageFromBytes and of all raft-log writers/readers compose to the identity on every field (lifted to all records by a general lemma); id defaulting modelled and pinned to the regenerated condition. The wire codecs themselves are assumed and validated on every run with real protobuf/JSON round trips.",
